@@ -1,0 +1,12 @@
+//go:build verif
+
+// Contracts for package compiler, read by /verif/engine (comment-only).
+package compiler
+
+// Height of the evaluation stack at the head of the loop emitted by emitLoop, relative to the height
+// when the loop is entered, per builtin (template-level loop invariant of the bytecode logic):
+// filter keeps one value per selected element, map one per element, the others none.
+//@ func compiler.compiler.BuiltinNode
+//@   property C01 C05 C18
+//@   case filter: loop-height count
+//@   case map: loop-height i
